@@ -5,7 +5,9 @@ from ..models import pathedit
 KEYS = ['a', 'b', 'c', 'd']
 # names that coincide with glom's internal op codes ('x' = *, 'X' = **) and digit strings (a key of a
 # mapping is never an index)
-ODD_KEYS = ['x', 'X', '0', '1', 'P']
+ODD_KEYS = ['x', 'X', '0', '1', 'P', '', 'e\\', '*', '**']
+# ('' : an empty segment of a text path is the empty key; 'e\\' : a backslash is an ordinary character;
+#  '*' / '**' : literal keys when given as Path('*') / T['*'] -- only the TEXT forms are wildcards)
 LEAVES = [0, 1, 7, 'x', 'yy', None, True]
 
 
@@ -159,7 +161,7 @@ def gen_segs(rng, root, allow_wild=False, p_absent=0.3, for_delete=False):
             continue
         go_absent = absent or rng.random() < (p_absent if not last else 0.45)
         if is_map and not absent:
-            keys = [k for k, _ in cur['v']]
+            keys = [k for k, _ in cur['v'] if not (style == 'str' and k in ('*', '**'))]
             if keys and not go_absent:
                 k = rng.choice(keys)
                 nxt = next(vv for kk, vv in cur['v'] if kk == k)
